@@ -514,6 +514,71 @@ func ruleZ3(c *Ctx, id string) {
 			}
 		}
 	}
+	// the same clearing as one statement: clear(buf.Data[size%BlockSize:]) / clear(buf.Data[size%BlockSize:BlockSize])
+	if found == "" {
+		bsz := constOfPkg(P, "github.com/goose-lang/primitive/disk", "BlockSize")
+		for fn := range reach {
+			if fn == V.ZeroBlock || fn == V.FreeBlock || !IsRepoFunc(fn) {
+				continue
+			}
+			for _, b := range fn.Blocks {
+				for _, in := range b.Instrs {
+					cl, ok := in.(*ssa.Call)
+					if !ok {
+						continue
+					}
+					bi, isB := cl.Call.Value.(*ssa.Builtin)
+					if !isB || bi.Name() != "clear" || len(cl.Call.Args) != 1 {
+						continue
+					}
+					sl, isS := cl.Call.Args[0].(*ssa.Slice)
+					if !isS {
+						continue
+					}
+					n, fl, base, _ := loadedField(sl.X)
+					if n == nil || n.Obj().Name() != "Buf" || fl != "Data" {
+						continue
+					}
+					found = FuncName(fn)
+					var szv ssa.Value
+					startOK := false
+					if sl.Low != nil {
+						if rem, isR := stripConv(sl.Low).(*ssa.BinOp); isR && rem.Op == token.REM {
+							if d, isd := constInt(stripConv(rem.Y)); isd && d == bsz {
+								startOK, szv = true, stripConv(rem.X)
+							}
+						}
+					}
+					R.Check(startOK, id, "inode.Resize|clearing starts at the new end of file", P.Pos(cl.Pos()), "the cleared range starts at <new size> % BlockSize", "clear(buf.Data[size % BlockSize:...])", "the clearing does not start at the new size's offset in its block: bytes in front of the new end are wiped, or bytes behind it are kept and reappear when the file grows")
+					endOK := sl.High == nil
+					if k, isk := constInt(stripConv(sl.High)); sl.High != nil && isk && k == bsz {
+						endOK = true
+					}
+					R.Check(endOK, id, "inode.Resize|tail cleared to the end of the block", P.Pos(cl.Pos()), "the cleared range ends at the end of the block buffer", "to BlockSize", "the range cleared ends before the end of the block: bytes of the cut-off tail stay and reappear when the file grows")
+					blkOK := false
+					if rb, isC := stripConv(base).(*ssa.Call); isC && staticCallee(rb) == V.ReadBlock && szv != nil {
+						as := fullArgs(rb)
+						for v := range bwdAll(as[len(as)-1]) {
+							if bc, isBC := v.(*ssa.Call); isBC && staticCallee(bc) == V.bmap {
+								bas := fullArgs(bc)
+								if q, isQ := stripConv(bas[len(bas)-1]).(*ssa.BinOp); isQ && q.Op == token.QUO && stripConv(q.X) == szv {
+									if d, isd := constInt(stripConv(q.Y)); isd && d == bsz {
+										blkOK = true
+									}
+								}
+							}
+						}
+					}
+					R.Check(blkOK, id, "inode.Resize|clearing in the block of the new end of file", P.Pos(cl.Pos()), "the block mapped is <new size> / BlockSize", "bmap(size / BlockSize)", "the tail is cleared in another block than the one that holds the new end of file")
+					isDirty := func(x ssa.Instruction) bool {
+						g := staticCallee(x)
+						return g != nil && (g == V.SetDirty || g == V.OverWrite)
+					}
+					R.Check(MustAfter(fn, isDirty, nil)(cl), id, "inode.Resize|cleared bytes reach the journal", P.Pos(cl.Pos()), "every path from the clearing passes SetDirty (or an OverWrite) of the buffer", "must-follow", "the cleared bytes are never logged: after a restart (or eviction of the buffer) the old bytes are back")
+				}
+			}
+		}
+	}
 	// ... and it clears up to the end of the block: the loop's bound must not be computed from the file's size (a
 	// bound taken from the old end of file is right only when old and new end lie in the same block)
 	for fn := range reach {
@@ -927,6 +992,18 @@ func ruleZ10(c *Ctx, id string) {
 						walk(e)
 					}
 					return
+				}
+				// max(a, b, ...) chooses among its arguments like a phi; the pending ShrinkSize itself is a block count already
+				if mc, ok := v.(*ssa.Call); ok {
+					if bi, isB := mc.Call.Value.(*ssa.Builtin); isB && (bi.Name() == "max" || bi.Name() == "min") {
+						for _, a := range mc.Call.Args {
+							if nn, fl, _, _ := loadedField(stripConv(a)); nn == V.Inode && fl == "ShrinkSize" {
+								continue
+							}
+							walk(a)
+						}
+						return
+					}
 				}
 				leaves = append(leaves, v)
 			}
